@@ -583,7 +583,11 @@ func genStream(r *Rng, o StreamOpts) *RecStream {
 	}
 	hs := HeaderSpec{Size: 12, Proto: o.Proto, Profile: 2115}
 	if hs.Proto == 0 {
-		hs.Proto = 0x20
+		// any protocol version whose major number is supported, any profile version
+		hs.Proto = []byte{0x20, 0x20, 0x10, 0x21, 0x2F, 0x00, 0x1A}[r.Intn(7)]
+		if r.Chance(1, 3) {
+			hs.Profile = uint16(r.U64())
+		}
 	}
 	if o.Hdr14 {
 		hs.Size = 14
